@@ -210,7 +210,10 @@ class CallScenario(explore.Scenario):
                 raw = R.encode_message(
                     R.METHOD_RETURN, w.bus_serial,
                     {'reply_serial': w.serial[i], 'destination': ':1.7',
-                     'sender': ':1.99'}, sig, mk(i))
+                     'sender': ':1.99'}, sig, mk(i),
+                    # the answering peer's byte order is its own business:
+                    # every second call is answered big-endian
+                    little=(i % 2 == 0))
                 if w.status[i] == 'pending':
                     w.status[i] = 'done'
                     w.expect[i] = expected_value(w.cfgs[i], i)
@@ -224,7 +227,8 @@ class CallScenario(explore.Scenario):
                 raw = R.encode_message(
                     R.ERROR, w.bus_serial,
                     {'reply_serial': w.serial[i], 'destination': ':1.7',
-                     'error_name': 'org.ex.Err%d' % i}, sig, body)
+                     'error_name': 'org.ex.Err%d' % i}, sig, body,
+                    little=(i % 2 == 1))
                 if w.status[i] == 'pending':
                     w.status[i] = 'done'
                     msg = body[0] if body and isinstance(body[0], str) else ''
@@ -237,7 +241,7 @@ class CallScenario(explore.Scenario):
                 conn.dataReceived(R.encode_message(
                     R.METHOD_RETURN, w.bus_serial,
                     {'reply_serial': 987654, 'destination': ':1.7'}, 's',
-                    ['stray']))
+                    ['stray'], little=False))
                 w.bus_serial += 1
                 conn.dataReceived(R.encode_message(
                     R.ERROR, w.bus_serial,
